@@ -366,9 +366,12 @@ class SSETransport(Transport):
                 if endpoint_path.startswith(("http://", "https://")):
                     # Direct URL
                     self._message_url = endpoint_path
-                elif "/" in endpoint_path.split("?", 1)[0]:
-                    # Relative path ("messages/?session_id=..."): relative to the
-                    # SSE endpoint <base>/sse
+                elif "/" in endpoint_path.split("?", 1)[0] or (
+                    "?" in endpoint_path and endpoint_path.split("?", 1)[0]
+                ):
+                    # Relative path ("messages/?session_id=...", or without any
+                    # slash: "messages?session_id=..."): relative to the SSE
+                    # endpoint <base>/sse
                     self._message_url = f"{self.base_url}/{endpoint_path}"
                 elif "=" in endpoint_path:
                     # Assume it's query parameters
